@@ -53,6 +53,17 @@ Theorem image_independent_of_previous_content : forall t base (h h' : heap),
 Proof. exact hw_image_independent. Qed.
 Print Assumptions image_independent_of_previous_content.
 
+(* the stored copy is self-contained: every block starts inside the mapping (after the header, before the end of the
+   get_length bytes) and every pointer held by a block is the address of a block of the copy: nothing in the image points
+   to the writer's heap or libhwloc (the harness checks the same on the really adopted topology: "ptrrange") *)
+Theorem stored_copy_self_contained : forall t base,
+  model_wf t = true ->
+  let at1 := fst (write_run t base) in
+  (forall a, In a (addrs at1) -> base + SHMEM_HEADER_LENGTH <= a < base + get_length (sizes ksize t)) /\
+  (forall a b p, In (a, b) (nodes at1) -> In p (hptrs b) -> In p (addrs at1)).
+Proof. exact hw_stored_copy_self_contained. Qed.
+Print Assumptions stored_copy_self_contained.
+
 (* the C request order (root object and level arrays first) needs the same number of bytes *)
 Theorem length_order_independent : forall s, sum_aligned (c_sizes s) = sum_aligned (sizes ksize (topo_tree s)).
 Proof. exact (hw_c_order_same_total align). Qed.
